@@ -96,87 +96,95 @@ def leaves(arrs):
     return P, C
 
 
-def gen_p(rng, P, C, depth, top=False):
-    """returns (python pipeline object, coq term, description); comparisons only at the top (boolean arrays are not arithmetic operands)"""
+def gen_p(rng, P, C, depth, top=False, R=None):
+    """returns (pipeline object, coq term, description, reference closure scale -> array).
+    Comparisons only at the top (boolean arrays are not arithmetic operands)."""
+    PR, CR = R
     k = int(rng.integers(0, 9 if top else 7)) if depth > 0 else 0
     if k <= 1 or depth == 0:
         i = int(rng.integers(0, 4))
-        return P[i], f"(PLeaf Q {natl(i)})", f"P{i}"
+        return P[i], f"(PLeaf Q {natl(i)})", f"P{i}", PR[i]
     if k == 2:
-        c, ct, cd = gen_c(rng, P, C, depth - 1)
-        p, pt, pd = gen_p(rng, P, C, depth - 1)
-        return c @ p, f"(PApp Q {ct} {pt})", f"({cd} @ {pd})"
+        c, ct, cd, cr = gen_c(rng, P, C, depth - 1, R=R)
+        p, pt, pd, pr = gen_p(rng, P, C, depth - 1, R=R)
+        return c @ p, f"(PApp Q {ct} {pt})", f"({cd} @ {pd})", (lambda s, cr=cr, pr=pr: cr(pr(s), s))
     if k == 3:
-        o = BOPS[int(rng.integers(0, 3))]          # no provider / provider division (zeros)
-        a, at, ad = gen_p(rng, P, C, depth - 1)
-        b, bt, bd = gen_p(rng, P, C, depth - 1)
-        return PYB[o](a, b), f"(PBin Q {o} {at} {bt})", f"({ad} {o} {bd})"
+        o = BOPS[int(rng.integers(0, 3))]
+        a, at, ad, ar = gen_p(rng, P, C, depth - 1, R=R)
+        b, bt, bd, br = gen_p(rng, P, C, depth - 1, R=R)
+        return PYB[o](a, b), f"(PBin Q {o} {at} {bt})", f"({ad} {o} {bd})", (lambda s, o=o, ar=ar, br=br: PYB[o](ar(s), br(s)))
     if k == 4:
         o = BOPS[int(rng.integers(0, 4))]
         kk = Fraction(int(rng.choice([1, 2, 4, -2, 8])), int(rng.choice([1, 2, 4]))) if o == "Div" else Fraction(int(rng.integers(-3, 4)), int(rng.choice([1, 2])))
-        if o == "Div" and kk == 0:
-            kk = Fraction(2)
-        a, at, ad = gen_p(rng, P, C, depth - 1)
-        return PYB[o](a, float(kk)), f"(PBinC Q {o} {at} {ql(kk)})", f"({ad} {o} {float(kk)})"
+        a, at, ad, ar = gen_p(rng, P, C, depth - 1, R=R)
+        return PYB[o](a, float(kk)), f"(PBinC Q {o} {at} {ql(kk)})", f"({ad} {o} {float(kk)})", (lambda s, o=o, ar=ar, kk=kk: PYB[o](ar(s), float(kk)))
     if k == 5:
         o = BOPS[int(rng.integers(0, 4))]
         kk = Fraction(int(rng.integers(-3, 6)), int(rng.choice([1, 2])))
         if o == "Div":
-            i = int(rng.integers(0, 3))         # reflected division only over strictly positive leaves
-            a, at, ad = P[i], f"(PLeaf Q {natl(i)})", f"P{i}"
+            i = int(rng.integers(0, 3))
+            a, at, ad, ar = P[i], f"(PLeaf Q {natl(i)})", f"P{i}", PR[i]
         else:
-            a, at, ad = gen_p(rng, P, C, depth - 1)
-        return PYB[o](float(kk), a), f"(PRBin Q {o} {ql(kk)} {at})", f"({float(kk)} {o} {ad})"
+            a, at, ad, ar = gen_p(rng, P, C, depth - 1, R=R)
+        return PYB[o](float(kk), a), f"(PRBin Q {o} {ql(kk)} {at})", f"({float(kk)} {o} {ad})", (lambda s, o=o, ar=ar, kk=kk: PYB[o](float(kk), ar(s)))
     if k == 6:
-        a, at, ad = gen_p(rng, P, C, depth - 1)
-        return -a, f"(PNeg Q {at})", f"(-{ad})"
+        a, at, ad, ar = gen_p(rng, P, C, depth - 1, R=R)
+        return -a, f"(PNeg Q {at})", f"(-{ad})", (lambda s, ar=ar: -ar(s))
     if k == 7:
         o = COPS[int(rng.integers(0, 6))]
-        a, at, ad = gen_p(rng, P, C, depth - 1)
-        b, bt, bd = gen_p(rng, P, C, depth - 1)
-        return PYC[o](a, b), f"(PCmp Q {o} {at} {bt})", f"({ad} {o} {bd})"
+        a, at, ad, ar = gen_p(rng, P, C, depth - 1, R=R)
+        b, bt, bd, br = gen_p(rng, P, C, depth - 1, R=R)
+        return PYC[o](a, b), f"(PCmp Q {o} {at} {bt})", f"({ad} {o} {bd})", (lambda s, o=o, ar=ar, br=br: PYC[o](ar(s), br(s)))
     o = COPS[int(rng.integers(0, 6))]
     kk = Fraction(int(rng.integers(0, 9)), 1)
-    a, at, ad = gen_p(rng, P, C, depth - 1)
-    return PYC[o](a, float(kk)), f"(PCmpC Q {o} {at} {ql(kk)})", f"({ad} {o} {float(kk)})"
+    a, at, ad, ar = gen_p(rng, P, C, depth - 1, R=R)
+    return PYC[o](a, float(kk)), f"(PCmpC Q {o} {at} {ql(kk)})", f"({ad} {o} {float(kk)})", (lambda s, o=o, ar=ar, kk=kk: PYC[o](ar(s), float(kk)))
 
 
-def gen_c(rng, P, C, depth, top=False):
+def gen_c(rng, P, C, depth, top=False, R=None):
+    PR, CR = R
     k = int(rng.integers(0, 9 if top else 8)) if depth > 0 else 0
     if k <= 1 or depth == 0:
         i = int(rng.integers(0, 4))
-        return C[i], f"(CLeaf Q {natl(i)})", f"C{i}"
+        return C[i], f"(CLeaf Q {natl(i)})", f"C{i}", CR[i]
     if k == 2:
-        c, ct, cd = gen_c(rng, P, C, depth - 1)
-        d, dt, dd = gen_c(rng, P, C, depth - 1)
-        return c @ d, f"(CComp Q {ct} {dt})", f"({cd} @ {dd})"
+        c, ct, cd, cr = gen_c(rng, P, C, depth - 1, R=R)
+        d, dt, dd, dr = gen_c(rng, P, C, depth - 1, R=R)
+        return c @ d, f"(CComp Q {ct} {dt})", f"({cd} @ {dd})", (lambda x, s, cr=cr, dr=dr: cr(dr(x, s), s))
     if k == 3:
         o = BOPS[int(rng.integers(0, 3))]
-        c, ct, cd = gen_c(rng, P, C, depth - 1)
-        d, dt, dd = gen_c(rng, P, C, depth - 1)
-        return PYB[o](c, d), f"(CBin Q {o} {ct} {dt})", f"({cd} {o} {dd})"
+        c, ct, cd, cr = gen_c(rng, P, C, depth - 1, R=R)
+        d, dt, dd, dr = gen_c(rng, P, C, depth - 1, R=R)
+        return PYB[o](c, d), f"(CBin Q {o} {ct} {dt})", f"({cd} {o} {dd})", (lambda x, s, o=o, cr=cr, dr=dr: PYB[o](cr(x, s), dr(x, s)))
     if k == 4:
         o = BOPS[int(rng.integers(0, 3))]
-        c, ct, cd = gen_c(rng, P, C, depth - 1)
-        p, pt, pd = gen_p(rng, P, C, depth - 1)
-        return PYB[o](c, p), f"(CBinP Q {o} {ct} {pt})", f"({cd} {o} {pd})"
+        c, ct, cd, cr = gen_c(rng, P, C, depth - 1, R=R)
+        p, pt, pd, pr = gen_p(rng, P, C, depth - 1, R=R)
+        return PYB[o](c, p), f"(CBinP Q {o} {ct} {pt})", f"({cd} {o} {pd})", (lambda x, s, o=o, cr=cr, pr=pr: PYB[o](cr(x, s), pr(s)))
     if k == 5:
         o = BOPS[int(rng.integers(0, 4))]
         kk = Fraction(int(rng.choice([1, 2, 4, -2])), 1) if o == "Div" else Fraction(int(rng.integers(-3, 4)), int(rng.choice([1, 2])))
-        c, ct, cd = gen_c(rng, P, C, depth - 1)
-        return PYB[o](c, float(kk)), f"(CBinC Q {o} {ct} {ql(kk)})", f"({cd} {o} {float(kk)})"
+        c, ct, cd, cr = gen_c(rng, P, C, depth - 1, R=R)
+        return PYB[o](c, float(kk)), f"(CBinC Q {o} {ct} {ql(kk)})", f"({cd} {o} {float(kk)})", (lambda x, s, o=o, cr=cr, kk=kk: PYB[o](cr(x, s), float(kk)))
     if k == 6:
         o = BOPS[int(rng.integers(0, 3))]
         kk = Fraction(int(rng.integers(-3, 6)), int(rng.choice([1, 2])))
-        c, ct, cd = gen_c(rng, P, C, depth - 1)
-        return PYB[o](float(kk), c), f"(CRBin Q {o} {ql(kk)} {ct})", f"({float(kk)} {o} {cd})"
+        c, ct, cd, cr = gen_c(rng, P, C, depth - 1, R=R)
+        return PYB[o](float(kk), c), f"(CRBin Q {o} {ql(kk)} {ct})", f"({float(kk)} {o} {cd})", (lambda x, s, o=o, cr=cr, kk=kk: PYB[o](float(kk), cr(x, s)))
     if k == 7:
-        c, ct, cd = gen_c(rng, P, C, depth - 1)
-        return -c, f"(CNeg Q {ct})", f"(-{cd})"
+        c, ct, cd, cr = gen_c(rng, P, C, depth - 1, R=R)
+        return -c, f"(CNeg Q {ct})", f"(-{cd})", (lambda x, s, cr=cr: -cr(x, s))
     o = COPS[int(rng.integers(0, 6))]
     kk = Fraction(int(rng.integers(0, 9)), 1)
-    c, ct, cd = gen_c(rng, P, C, depth - 1)
-    return PYC[o](c, float(kk)), f"(CCmpC Q {o} {ct} {ql(kk)})", f"({cd} {o} {float(kk)})"
+    c, ct, cd, cr = gen_c(rng, P, C, depth - 1, R=R)
+    return PYC[o](c, float(kk)), f"(CCmpC Q {o} {ct} {ql(kk)})", f"({cd} {o} {float(kk)})", (lambda x, s, o=o, cr=cr, kk=kk: PYC[o](cr(x, s), float(kk)))
+
+
+def ref_leaves(arrs):
+    """reference meaning of the leaves, written from their definitions"""
+    PR = [lambda s, a=arrs[0]: a, lambda s, a=arrs[1]: a, lambda s, a=arrs[2]: a, lambda s, a=arrs[0]: np.full(a.shape, 8.0 * s)]
+    CR = [lambda x, s: x * 2.0, lambda x, s: x + 4.0 * s, lambda x, s: x * x, lambda x, s: 10.0 - x]
+    return PR, CR
 
 
 def corr_expr(ck, rng):
@@ -187,21 +195,30 @@ def corr_expr(ck, rng):
     for i in range(n):
         arrs = [rng.choice([1.0, 2.0, 4.0, 8.0], size=(1, 2, 2)).astype(np.float64) for _ in range(3)]
         P, C = leaves(arrs)
+        R = ref_leaves(arrs)
         al = lst([qlist([frac(float(v)) for v in a.ravel()]) for a in arrs])
         scale = float(rng.choice([1.0, 0.5, 2.0, 0.25]))
         depth = int(rng.integers(1, maxd + 1))
         try:
             if i % 3:
-                obj, term, desc = gen_p(rng, P, C, depth, top=True)
+                obj, term, desc, ref = gen_p(rng, P, C, depth, top=True, R=R)
                 out = np.asarray(obj(scale), dtype=np.float64)
+                want = np.asarray(ref(scale), dtype=np.float64)
+                ck.oracle_count('expression_meaning', 1, 1)
+                if np.all(np.isfinite(want)) and not np.array_equal(out, want):
+                    ck.violation(what=f'pipeline expression {desc} evaluates to {out.ravel().tolist()} but means {want.ravel().tolist()}', inp={'expr': desc, 'scale': scale, 'arrays': [a.ravel().tolist() for a in arrs]}, key={'site': 'expr-meaning', 'kind': 'provider'}, oracle='expression_meaning')
                 if not np.all(np.isfinite(out)):
                     continue
                 cases.append((f"(check_pexpr {al} {term} {ql(frac(scale))} {qlist([frac(float(v)) for v in out.ravel()])})",
                               {"kind": "provider", "expr": desc, "scale": scale, "out": out.ravel().tolist()}))
             else:
-                obj, term, desc = gen_c(rng, P, C, depth, top=True)
+                obj, term, desc, ref = gen_c(rng, P, C, depth, top=True, R=R)
                 x = rng.integers(0, 5, size=(1, 2, 2)).astype(np.float64)
                 out = np.asarray(obj(x, scale), dtype=np.float64)
+                want = np.asarray(ref(x, scale), dtype=np.float64)
+                ck.oracle_count('expression_meaning', 1, 1)
+                if np.all(np.isfinite(want)) and not np.array_equal(out, want):
+                    ck.violation(what=f'pipeline expression {desc} evaluates to {out.ravel().tolist()} but means {want.ravel().tolist()}', inp={'expr': desc, 'scale': scale, 'x': x.ravel().tolist(), 'arrays': [a.ravel().tolist() for a in arrs]}, key={'site': 'expr-meaning', 'kind': 'converter'}, oracle='expression_meaning')
                 if not np.all(np.isfinite(out)):
                     continue
                 cases.append((f"(check_cexpr {al} {term} {qlist([frac(float(v)) for v in x.ravel()])} {ql(frac(scale))} {qlist([frac(float(v)) for v in out.ravel()])})",
